@@ -227,6 +227,18 @@ impl BlockingManager {
         });
     }
     
+    /// Keys that currently have waiting clients
+    pub fn keys_with_waiters(&self) -> Vec<(DatabaseIndex, Vec<u8>)> {
+        let mut keys = Vec::new();
+        for (db, registry) in self.registries.iter().enumerate() {
+            let registry = registry.read().unwrap();
+            for key in registry.blocked_keys.iter() {
+                keys.push((db, key.clone()));
+            }
+        }
+        keys
+    }
+    
     /// Put a client back at the head of a key's queue: its wake-up found the element gone (another
     /// client popped it first), so it keeps its place and its deadline
     pub fn requeue_front(&self, db: DatabaseIndex, key: &[u8], client: BlockedClient) {
